@@ -7,6 +7,7 @@
  * usage: mc_session --set all|core|proto --len N [--props C08,C09,C16] [--shard i/n] [--case "<history>"]
  */
 #include "../engine/mc.h"
+#include "synth_model.h"
 #include <soundswallower/alignment.h>
 #include <soundswallower/config_defs.h>
 #include <soundswallower/decoder.h>
@@ -73,12 +74,24 @@ load_audio(void)
         AUD_AF[i] = AUD_A[i] / 32768.0f;
 }
 
+/* --synth semi|ms|mixw: decoders load a synthetic model (see synth_model.h) instead of the bundled one */
+static char SYNTH_DIR[600];
+static int SYNTH_MS;
+static void
+synth_cleanup(void)
+{
+    if (SYNTH_DIR[0] && !mc_child_mode)
+        rm_model(SYNTH_DIR);
+}
+
 static decoder_t *
 make_decoder(void)
 {
     config_t *cfg = config_init(NULL);
     decoder_t *d;
-    config_set_str(cfg, "hmm", MODELDIR);
+    config_set_str(cfg, "hmm", SYNTH_DIR[0] ? SYNTH_DIR : MODELDIR);
+    if (SYNTH_MS)
+        config_set_str(cfg, "senmgau", ".semi.");
     config_set_str(cfg, "dict", DICT_PATH);
     config_set_str(cfg, "loglevel", "FATAL");
     d = decoder_init(cfg);
@@ -756,6 +769,17 @@ main(int argc, char **argv)
         fclose(fp);
     }
     load_audio();
+    if (mc_arg(argc, argv, "--synth", NULL)) {
+        const char *sc = mc_arg(argc, argv, "--synth", "semi"), *out = getenv("MC_OUT");
+        snprintf(SYNTH_DIR, sizeof SYNTH_DIR, "%s.%d.model", out ? out : "/var/tmp/mc_session", (int)getpid());
+        rm_model(SYNTH_DIR);
+        if (gen_model(SYNTH_DIR, sc) < 0) {
+            fprintf(stderr, "cannot write the synthetic model in %s\n", SYNTH_DIR);
+            return 2;
+        }
+        SYNTH_MS = strcmp(sc, "ms") == 0;
+        atexit(synth_cleanup);
+    }
     /* reference digests from a fresh decoder, which is then released */
     {
         decoder_t *f = make_decoder();
